@@ -39,7 +39,9 @@ ASSUMPTIONS = [
     "copying a list or tuple literal with list(...) is a builtin operation, not an iteration of user code",
 ]
 TRUSTED = ["effect log of the engine: every value-dependent operation on an opaque user value goes through the logged hooks"]
-BOUNDED_ONLY_CLAUSES = ["how many domain elements the first k results pull (prefix bound) is measured by the bounded event-log driver",
+BOUNDED_ONLY_CLAUSES = ["how many domain elements the first k results pull (prefix bound) is measured by the bounded event-log driver "
+                        "(deductively: no operator consumes a lazily produced child stream eagerly, and the result quantifier yields every "
+                        "child result before it pulls the next one)",
                         "predicates over unbound variables use itertools.product (generate_combinations) and drain their argument domains: finding"]
 
 SYNTH = '''
@@ -178,9 +180,11 @@ def h_evaluation_discipline():
         for n in names:
             h = hs[n]
             vm2 = type(vm)(vm.loader, ctx, h.spec)
+            before = len([e for e in ctx.effects if e[0] == "materialise"])
             try:
                 h.fn(vm2)
-                ok, why = True, ""
+                mats = [e[1] for e in ctx.effects if e[0] == "materialise"][before:]
+                ok, why = (not mats), f"a lazily produced child stream is consumed completely: {mats[:2]}"
             except PathEnd:
                 raise
             except Unsupported as e:
@@ -222,5 +226,19 @@ def h_canary():
     return Harness("canary", run, expect_fail=True)
 
 
+def prompt(h):
+    """a C09 quantifier harness under the name of the laziness clause it carries: its loop invariant
+    (results yielded = child results pulled, at every loop head) says that no result is held back while the child is advanced"""
+    def run(vm):
+        orig = vm.ctx.check
+        vm.ctx.check = lambda oid, f, detail=None: orig("prompt::" + oid, f, detail)
+        h.fn(vm)
+    return Harness("prompt-" + h.name, run, spec=h.spec, covers=list(h.covers or []), max_paths=h.max_paths, timeout_ms=h.timeout_ms,
+                   retry_unknown=h.retry_unknown, ematching_only=h.ematching_only)
+
+
 def harnesses():
-    return [h_construction(), h_symbolic_callables(), h_evaluation_discipline(), h_hashed_iterable(), h_canary()]
+    from . import C09
+    hq = {h.name: h for h in C09.harnesses()}
+    return [h_construction(), h_symbolic_callables(), h_evaluation_discipline(), h_hashed_iterable()] + \
+        [prompt(hq[n]) for n in ("an-evaluate[none+var]", "an-evaluate[c+upper+var]") if n in hq] + [h_canary()]
